@@ -5,10 +5,12 @@ import (
 	"crypto/sha256"
 	"encoding/binary"
 	"encoding/hex"
+	"encoding/json"
 	"fmt"
 	"runtime"
 	"strings"
 	"sync"
+	"unicode/utf8"
 
 	"github.com/btcsuite/btcd/btcutil/hdkeychain"
 	"github.com/btcsuite/btcd/chaincfg"
@@ -552,6 +554,24 @@ func bdTuple(i int, rng *Rng, keys *bdKeys, nonces int, seed uint64, t *bdRec) {
 		proof := cashu.Proof{Amount: amount, Id: ks.Id, Secret: secret, C: bdHexPt(C), DLEQ: &cashu.DLEQProof{E: eh, S: sh, R: rh}}
 		t.check("C10", "dleq-accept", "VerifyProofDLEQ", "honest", nut12.VerifyProofDLEQ(proof, K), "third-party VerifyProofDLEQ rejects the honest proof with r", ex)
 		t.check("C10", "dleq-accept", "VerifyProofsDLEQ", "honest", nut12.VerifyProofsDLEQ(cashu.Proofs{proof}, ksPub), "VerifyProofsDLEQ rejects the honest proof with r", ex)
+
+		// --- what travels over the wire: JSON round trip of the blind signature and of the proof (valid UTF-8 secrets only:
+		//     encoding/json replaces invalid UTF-8, such a secret cannot be transported at all)
+		if full {
+			bs := cashu.BlindedSignature{Amount: amount, Id: ks.Id, C_: bdHexPt(C_), DLEQ: &dl}
+			var bs2 cashu.BlindedSignature
+			jb, err1 := json.Marshal(bs)
+			err2 := json.Unmarshal(jb, &bs2)
+			t.check("C10", "dleq-accept", "VerifyBlindSignatureDLEQ", "json-roundtrip", err1 == nil && err2 == nil && bs2.DLEQ != nil &&
+				nut12.VerifyBlindSignatureDLEQ(*bs2.DLEQ, ksPub.PublicKeys[bs2.Amount], bdHexPt(B_), bs2.C_), "blind signature DLEQ rejected after JSON round trip", ex)
+			if utf8.ValidString(secret) {
+				var p2 cashu.Proof
+				jp, err1 := json.Marshal(proof)
+				err2 := json.Unmarshal(jp, &p2)
+				t.check("C10", "dleq-accept", "VerifyProofsDLEQ", "json-roundtrip", err1 == nil && err2 == nil && p2.DLEQ != nil && p2.Secret == secret &&
+					nut12.VerifyProofsDLEQ(cashu.Proofs{p2}, ksPub), "proof DLEQ rejected after JSON round trip", ex)
+			}
+		}
 
 		rej := func(field, variant string, accepted bool, extra map[string]any) {
 			m := map[string]any{}
